@@ -6,6 +6,13 @@ NOTE = ("bounded scope only (declared lattices/catalogues/depths); exact Fractio
 TECH = "exhaustive small-scope enumeration of the real implementation against an exact reference model (explicit-state explorer written for this task)"
 
 CHECKS = {
+    "C14": ("All 728 non-zero symmetric 3x3 matrices over {-1,0,1} (split exactly into non-degenerate / rank 2 / rank 1) x all 26 lattice lines: "
+            "intersect compared with the two roots of the exact integer binary form of the restriction (secant, tangent contact once or as a "
+            "coincident pair, complex pair), single and collection forms incl. mixed collections; 14 integer 4x4 quadrics of every rank/signature and "
+            "Sphere / Cone / Cylinder instances x all lines through lattice pairs, mixed 3D collections of reducible and irreducible members; tangent at "
+            "points on the quadric and from outside points, polar values and reciprocity; dual and dual.dual for Quadric, Conic, Circle, Ellipse, "
+            "Sphere, given-dual quadrics and collections; is_tangent against exact h^T adj(A) h = 0, also on quadrics derived after earlier queries.",
+            NOTE, TECH, "DESIGN.md section 5, C14"),
     "C13": ("from_points over all 25 052 five-point subsets of the 5x5 lattice with no three collinear (exact conic from the integer null space; "
             "argument orders on a sub-family; from_crossratio with the exact cross ratio), from_tangent over all general 4-subsets of the 3x3 lattice x "
             "every lattice line missing them (containment and zero discriminant of the restriction), from_foci over lattice foci x boundary points "
